@@ -352,6 +352,29 @@ Proof.
   destruct l; simpl; [destruct b; reflexivity|apply IH].
 Qed.
 
+(* ---- the attribute loop of the XML reader ------------------------------------------------------- *)
+(* For EVERY attribute list (empty values included) the loop leaves cur on the element, the stream
+   pointer untouched, and has appended exactly one attribute node per attribute, each with one
+   text child holding the value. *)
+Lemma add_attr_eq : forall g rest s a,
+  add_attr (mkS (g :: rest) None s) a = mkS (add_kid g (attr_node a) :: rest) None s.
+Proof. intros g rest s [[n f] v]. reflexivity. Qed.
+
+Lemma add_attrs_eq : forall attrs g rest s,
+  fold_left add_attr attrs (mkS (g :: rest) None s) = mkS (add_kids g (map attr_node attrs) :: rest) None s.
+Proof.
+  induction attrs as [|a attrs IH]; intros g rest s.
+  - cbn [fold_left map]. rewrite add_kids_nil. reflexivity.
+  - cbn [fold_left map]. rewrite add_attr_eq, add_kid_is_add_kids, IH, add_kids_add_kids. reflexivity.
+Qed.
+
+Lemma xstart_eq : forall pm stack d s nm fs attrs,
+  xstart pm (mkS stack d s) nm fs attrs =
+  candidate_check pm (mkS (mkF ElementNode nm fs (map attr_node attrs) :: stack) None s).
+Proof.
+  intros. unfold xstart, push. cbn [s_stack s_stream]. rewrite add_attrs_eq. reflexivity.
+Qed.
+
 Definition prepend (L : list (tree * nat)) (r : list (tree * nat) * final) : list (tree * nat) * final :=
   (L ++ fst r, snd r).
 Lemma prepend_nil : forall r, prepend [] r = r.
@@ -422,8 +445,8 @@ Section XmlProof.
   Lemma build_inside : forall x, BuildP x.
   Proof.
     induction x as [nm fs attrs kids IH|s] using xnode_ind2; intros f r k rel rest Hk.
-    - cbn [xevents]. rewrite <- app_comm_cons. cbn [xrun xstep s_stack].
-      unfold candidate_check, push. cbn [s_stream s_stack].
+    - cbn [xevents]. rewrite <- app_comm_cons. cbn [xrun xstep s_stack]. rewrite xstart_eq.
+      unfold candidate_check. cbn [s_stream s_stack].
       rewrite <- app_assoc.
       rewrite (build_kids kids IH) by (simpl in *; lia).
       cbn [app xrun xstep]. unfold wrap_up. cbn [s_stack s_stream].
@@ -483,8 +506,8 @@ Section XmlProof.
       assert (Hgk : Forall (fun k => is_element k = false) (f_kids g)) by apply attrs_nonelem.
       destruct (match_any_push pm g (f :: r) HI Hg Hgk) as (root & Hroot & Hany).
       change (fname g) with (xname (XE nm fs attrs kids)) in Hany. fold c in Hany.
-      cbn [xevents]. rewrite <- app_comm_cons. cbn [xrun xstep s_stack].
-      unfold candidate_check, push. cbn [s_stream s_stack root_tree]. fold g.
+      cbn [xevents]. rewrite <- app_comm_cons. cbn [xrun xstep s_stack]. rewrite xstart_eq.
+      unfold candidate_check. cbn [s_stream s_stack root_tree]. fold g.
       rewrite Hroot, Hany.
       cbn [grow xspec]. set (c' := c ++ [xname (XE nm fs attrs kids)]) in *.
       set (t := xtree (XE nm fs attrs kids)).
